@@ -40,6 +40,8 @@ RENDER_INFO = {"name": "render", "quick": 3000, "thorough": 60000, "informationa
 GLUE = {"name": "glue", "quick": 250, "thorough": 4000}
 PTRACE = {"name": "ptrace", "quick": 150, "thorough": 3000}
 LIFE = {"name": "life", "quick": 100, "thorough": 600}
+# histories of real programs (trace points) accepted by the Lifecycle LTS
+LTRACE = {"name": "ltrace", "quick": 60, "thorough": 4000}
 CMDFNS = {"name": "cmdfns", "quick": 2000, "thorough": 50000}
 
 INPUT_RULE = ("detect: all buffers of <=1 byte and 13x256 (thorough: all) of 2 bytes, all words <=3 (thorough 4) over an 18-byte branch alphabet, every documented key alone/alt/with a tail, all 256 SGR codes x {M,m}, all X10 codes, huge numeric parameters, then seeded structured/mutated/malformed buffers, each with both canHaveMoreData flags; "
@@ -50,7 +52,7 @@ _CFG = {
     "C01": {"scenarios": ["fold", "term"], "streams": [PTRACE], "trusted": RUNTIME_TRUST},
     "C02": {"scenarios": ["cmds"], "streams": [PTRACE, CMDFNS], "trusted": RUNTIME_TRUST},
     "C03": {"scenarios": ["seq"], "streams": [CMDFNS], "trusted": RUNTIME_TRUST},
-    "C04": {"scenarios": ["term", "pty"], "streams": [LIFE, READER], "trusted": RUNTIME_TRUST},
+    "C04": {"scenarios": ["term", "pty"], "streams": [LIFE, LTRACE, READER], "trusted": RUNTIME_TRUST},
     "C05": {"scenarios": ["modes", "exec", "pty"], "streams": [GLUE], "trusted": RENDER_TRUST},
     "C06": {"streams": [VT, RENDER_INFO], "scenarios": ["wide"], "rule": RENDER_RULE, "trusted": RENDER_TRUST},
     "C07": {"streams": [VT, RENDER_INFO], "scenarios": ["final"], "rule": RENDER_RULE, "trusted": RENDER_TRUST},
@@ -60,7 +62,7 @@ _CFG = {
     "C10": {"streams": [DETECT, READER], "rule": INPUT_RULE, "trusted": INPUT_TRUST},
     "C11": {"streams": [DETECT, READER], "rule": INPUT_RULE, "trusted": INPUT_TRUST},
     "C12": {"scenarios": ["modes"], "streams": [GLUE], "trusted": RENDER_TRUST},
-    "C13": {"scenarios": ["api"], "streams": [LIFE], "trusted": RUNTIME_TRUST},
+    "C13": {"scenarios": ["api"], "streams": [LIFE, LTRACE], "trusted": RUNTIME_TRUST},
     "C14": {"streams": [VT, RENDER_INFO], "rule": RENDER_RULE, "trusted": RENDER_TRUST},
     "C15": {"streams": [READER], "rule": INPUT_RULE, "trusted": INPUT_TRUST},
     "C16": {"scenarios": ["filter"], "streams": [PTRACE], "trusted": RUNTIME_TRUST},
